@@ -199,6 +199,10 @@ def meta_to_job(prog: dict, meta: dict) -> dict | None:
         return {"kind": "redeliver", "prog": prog, "cases": [(meta["victim"], meta["after"])],
                 "opts": {"restart": meta.get("restart", False), "reset_bloom": meta.get("reset", False),
                          "trust": meta.get("trust", False)}}
+    if k == "operator":
+        return {"kind": "operator", "prog": prog, "seeds": [meta["seed"]],
+                "opts": {"pause_at": meta["pause_at"], "unpause_after": meta["unpause_after"], "restart": meta["restart"],
+                         "shuffle": meta["shuffle"], "hold": meta.get("hold", "")}}
     if k == "pollcrash":
         return {"kind": "pollcrash", "prog": prog, "cases": [meta["times"]]}
     if k == "signal-crash":
